@@ -382,6 +382,8 @@ func TestVerifC12(t *testing.T) {
 			c12Bomb(rec, d.Bomb)
 		case "client-steps":
 			c12StepReplay(rec, &d)
+		case "startup":
+			c12StartupWindow(rec, d.Seed)
 		case "repeat":
 			c12RepeatRun(rec, d.Seed, d.Thorough, d.Item, d.Repeat)
 		}
@@ -410,6 +412,10 @@ func TestVerifC12(t *testing.T) {
 		}
 		n++
 	}
+	if rec.Mine(n) {
+		c12StartupWindow(rec, rec.Seed())
+	}
+	n++
 	for item := 0; item < c12RepeatItems(); item++ {
 		if rec.Mine(n) {
 			c12RepeatRun(rec, rec.Seed(), rec.Thorough(), item, nil)
